@@ -376,9 +376,18 @@ func (r *report) replayAll() {
 			to = 30 * time.Second // a native run that is still going after this long is the hang
 		}
 		ok, tags, _, err := runReplay(dir, to)
+		same := false
+		for _, t := range tags {
+			// the native run must fail the SAME assertion (run-time panics and hangs carry texts that
+			// differ between the engine and the Go runtime: compared by kind)
+			same = same || t == p.v.Tag || t == "native-timeout" || t == "native-crash" ||
+				(strings.HasPrefix(t, "escaping-panic") && strings.HasPrefix(p.v.Tag, "escaping-panic"))
+		}
 		switch {
 		case err != nil:
 			r.incon("unit %s: replay of %q failed to run: %v (see %s/replay.out)", p.unit.Name, p.v.Tag, err, dir)
+		case ok && !same:
+			r.incon("unit %s: the native replay of %q failed other assertions (%s) but not this one (encoder or model defect, not reported as a violation): %s", p.unit.Name, p.v.Tag, strings.Join(tags, ","), desc)
 		case ok:
 			r.violLines = append(r.violLines, fmt.Sprintf("VIOLATION property=%s replay=%s", r.spec.Property, dir))
 			r.notes = append(r.notes, fmt.Sprintf("counterexample (reproduced natively: %s): %s", strings.Join(tags, ","), desc))
